@@ -1,4 +1,6 @@
 import TsVerif.C12.Props
+import TsVerif.C12.Round11
+import TsVerif.C12.Round11b
 #print axioms TsVerif.C12.editKids_get
 #print axioms TsVerif.C12.edit_same_or_marked
 #print axioms TsVerif.C12.unmarked_shared
@@ -14,3 +16,14 @@ import TsVerif.C12.Props
 #print axioms TsVerif.C12.marked_total_bound_partial
 #print axioms TsVerif.C12.uncovered_split
 #print axioms TsVerif.C12.reparse_work_bound_partial
+#print axioms TsVerif.C12.front_desc_bound
+#print axioms TsVerif.C12.desc_tips_bound
+#print axioms TsVerif.C12.reuse_candidates_bound
+#print axioms TsVerif.C12.marked_is_rebuilt
+#print axioms TsVerif.C12.marked_reaches_window
+#print axioms TsVerif.C12.edit_shape
+#print axioms TsVerif.C12.edit_candidates_bound
+#print axioms TsVerif.C12.gt_bound
+#print axioms TsVerif.C12.tips_le_gt
+#print axioms TsVerif.C12.tips_bound
+#print axioms TsVerif.C12.edit_candidates_total_bound
